@@ -1,6 +1,8 @@
 package main
 
 import (
+	"math/big"
+	"runtime"
 	"sync/atomic"
 	"golang.org/x/tools/go/ssa"
 	"go/types"
@@ -511,6 +513,13 @@ type Evidence struct {
 func runCheck(repo, verifDir string, opts CheckOpts, overlay map[string][]byte, writeEvidence bool) int {
 	t0 := time.Now()
 	cexSearches = 0
+	// per-run caches that refer to the loaded program (a long-running selftest would otherwise keep every
+	// program it ever loaded alive)
+	loopCache = map[*ssa.Function]*loopInfo{}
+	ghostOwners = map[string]*types.Named{}
+	seqTypes = map[string]*types.Named{}
+	termBounds = map[string][2]*big.Int{}
+	defer runtime.GC()
 	prop := opts.Prop
 	// load specs first to find the packages
 	sp0, err := LoadSpecs(repo, overlay, verifDir)
